@@ -55,7 +55,7 @@ THEOREMS['C16'] = ['FB.Codec.decode_encode', 'FB.Codec.decodeOps_encodeOps', 'FB
 THEOREMS['C10'] = ['FB.C10_success', 'FB.C10_failure', 'FB.C10_setup', 'FB.MakeDirs.makeDirs_error', 'FB.MakeDirs.loop_error']
 THEOREMS['C12'] = ['FB.C12_preClean_frame', 'FB.C12_clean_noop_without_cache', 'FB.C12_clean_idempotent',
                    'FB.C12_impl_clean_is_preClean', 'FB.BuildDirs.preClean_gone_iff', 'FB.BuildDirs.preClean_isFile_iff',
-                   'FB.BuildDirs.preClean_isDir_iff']
+                   'FB.BuildDirs.preClean_isDir_iff', 'FB.preClean_recovers']
 THEOREMS['C15'] = ['FB.C15_spec_build_refused', 'FB.C15_impl_build_refused', 'FB.C15_spec_clean_refused']
 THEOREMS['C18'] = ['FB.sanitize_shape', 'FB.sanitize_idempotent', 'FB.sanitize_rejects_iff', 'FB.isEqual_refl',
                    'FB.isEqual_symm', 'FB.isEqual_trans', 'FB.toHashable_iff',
